@@ -201,6 +201,19 @@ pub fn hostile_messages_x(tier: &str, seed: u64) -> Vec<(Vec<u8>, String, Option
         g.share = 7;
         let mut p = g.packet(3);
         if i % 7 == 0 { *p.opcode_mut() = OPCODE::StandardQuery; }
+        // the same record twice in a row with another TTL or cache-flush bit (a goodbye followed by a
+        // re-announcement): one record per entry, however alike two entries are
+        if i % 4 == 1 {
+            for sec in [&mut p.answers, &mut p.name_servers, &mut p.additional_records] {
+                if let Some(first) = sec.iter().find(|x| !matches!(x.rdata, rdata::RData::OPT(_))).cloned() {
+                    let at = sec.iter().position(|x| x == &first).unwrap();
+                    let mut twin = first.clone();
+                    twin.ttl = if r.chance(1, 2) { 0 } else { twin.ttl };
+                    twin.cache_flush = r.chance(1, 2);
+                    sec.insert(at + 1, twin);
+                }
+            }
+        }
         let ptxt = text::packet(&p);
         let pos = if p.opt().is_some() { Some(r.below(5) as usize) } else { None };
         let (bytes, _) = refenc::encode_packet(&ptxt, Compress::Random(&mut r, 5), false, pos);
